@@ -47,10 +47,14 @@ LEVEL_TEXT = {
             "once, in subscription order, and touches nothing else; set(), operator= and operator>> are the same call and bindings write through setHelper. "
             "Custom equal_to specialisations and types without operator== are outside the Z-valued model. Tie: differential execution incl. observers that write "
             "and assignment from a reference into another property.", '6/C03'),
-    'C06': ("PARTIAL. Machine-checked: a change notification reaching an evaluator-driven binding only sets dirty flags; an assignment to an input whose "
-            "subscribers are observers and evaluator-driven nodes changes no other property, runs no user function and notifies only the input's observers; an "
-            "evaluation with nothing dirty runs nothing. 'Fully consistent after one evaluateAll for chains created in dependency order' is evaluated by the "
-            "extracted checker PropCheck.check_c06_after_evalall on every evaluateAll of every generated history and by correspondence with the library (tests).", '6/C06'),
+    'C06': ("Machine-checked on the executable model: a change notification reaching an evaluator-driven binding only sets dirty flags; an assignment to an "
+            "input whose subscribers are observers and evaluator-driven nodes changes no other property, runs no user function and notifies only the input's "
+            "observers; an evaluation with nothing dirty runs nothing. Machine-checked on the abstract model of evaluator-driven bindings (PropAbsLazy.v: "
+            "marking with early return, cached evaluation, evaluateAll in creation order, setHelper marking the readers): ONE evaluateAll over bindings "
+            "registered in dependency order leaves every registered binding clean and every bound property equal to the denotation of its expression, for "
+            "every network, interpretation and delivery order; the invariant (sound dirty flags, complete and sound subscriptions) is kept by assignments and "
+            "evaluations. PARTIAL: the executable model is tied to the abstract theorem by the extracted checker check_c06_after_evalall on every evaluateAll "
+            "of every generated history and by correspondence with the library (tests), not by a refinement proof.", '6/C06'),
     'C07': ("Machine-checked on the executable model: every direct write to a bound property raises ReadOnlyProperty and leaves the world unchanged; reset keeps "
             "value and observers, removes the updater and re-enables the normal write protocol; destroying/replacing a binding touches no property and no "
             "observer; after reset the former binding is dead and owns no subscription in any signal of any property, only live bindings are subscribed anywhere, "
